@@ -58,7 +58,7 @@ pub fn normalize_ty(t: &Ty) -> Ty {
     }
 }
 
-fn write_variant(base: &Path, schema_name: &str, schema_text: &str, scalars_yaml: &str, mode: &str, ops: &[(String, String)]) -> Project {
+pub(crate) fn write_variant(base: &Path, schema_name: &str, schema_text: &str, scalars_yaml: &str, mode: &str, ops: &[(String, String)]) -> Project {
     let p = Project::new(base);
     let cfg = format!(
         "schema: \"./{schema_name}\"\ndocuments: \"./ops/*.graphql\"\nextensions:\n  nitrogql:\n    generate:\n      mode: \"{mode}\"\n      schemaOutput: \"./generated/schema.d.ts\"\n      resolversOutput: \"./generated/resolvers.d.ts\"\n{scalars_yaml}"
@@ -71,7 +71,7 @@ fn write_variant(base: &Path, schema_name: &str, schema_text: &str, scalars_yaml
     p
 }
 
-fn scalars_yaml(cfg: &ScalarCfg, s: &crate::schema::Schema) -> String {
+pub(crate) fn scalars_yaml(cfg: &ScalarCfg, s: &crate::schema::Schema) -> String {
     let custom = s.of_kind(Kind::Scalar);
     if custom.is_empty() {
         return String::new();
